@@ -3,10 +3,31 @@ package main
 import (
 	"fmt"
 	"go/types"
+	"os"
 	"path/filepath"
 	"regexp"
 	"strings"
 )
+
+var reLenHead = regexp.MustCompile(`\(len_(Slice_[A-Za-z0-9_]+) `)
+
+func sliceTermAfter(text, head string) string { return "" }
+
+var reMapCard = regexp.MustCompile(`\(select (Mc\$[^\s()]+@0) `)
+
+// keySortOfDom finds the key sort of a map-domain heap from the obligation's declarations.
+func keySortOfDom(o *Obligation, dom string) string {
+	for _, d := range o.Decls {
+		if strings.HasPrefix(d, "(declare-fun "+dom+" ") {
+			// (declare-fun NAME () (Array Int (Array K Bool)))
+			i := strings.Index(d, "(Array Int (Array ")
+			if i >= 0 {
+				return firstSExpr(d[i+len("(Array Int (Array "):])
+			}
+		}
+	}
+	return ""
+}
 
 var reSliceLen = regexp.MustCompile(`\(len_(Slice_[A-Za-z0-9_]+) ([^\s()]+)\)`)
 var reStrLen = regexp.MustCompile(`\(str\.len ([^\s()]+|\([^()]*\))\)`)
@@ -163,6 +184,12 @@ func (p *Prog) makeReplay(o *Obligation, prop, repo, outDir string) *ReplayRecor
 		rr := p.u.Solve(rel, filepath.Dir(r.File), 8, false)
 		if rr.Status != "sat" {
 			rep.Note = "the obligation stopped proving; the solver returned no model (" + r.Status + "; relaxed search: " + rr.Status + ")"
+			if ok2, note2 := p.searchCounterexample(o, rep, repo, filepath.Join(outDir, "replay", prop)); ok2 {
+				rep.Reproduced = true
+				rep.Note = note2
+			} else if note2 != "" {
+				rep.Note += " | bounded search: " + note2
+			}
 			return rep
 		}
 		rel.Result = rr
@@ -172,6 +199,16 @@ func (p *Prog) makeReplay(o *Obligation, prop, repo, outDir string) *ReplayRecor
 	ok, note := p.tryReplay(target, rep, repo, filepath.Join(outDir, "replay", prop))
 	rep.Reproduced = ok
 	rep.Note += note
+	if !ok {
+		// bounded counterexample search: the same clause on the function with its loops unrolled (exact semantics
+		// for small inputs); a model found there counts only if it replays on the real code
+		if ok2, note2 := p.searchCounterexample(o, rep, repo, filepath.Join(outDir, "replay", prop)); ok2 {
+			rep.Reproduced = true
+			rep.Note = note2
+		} else if note2 != "" {
+			rep.Note += " | bounded search: " + note2
+		}
+	}
 	return rep
 }
 
@@ -192,7 +229,8 @@ func (p *Prog) relax(o *Obligation) *Obligation {
 			}
 			return
 		}
-		if strings.Contains(f, "(forall ") || strings.Contains(f, "(exists ") {
+		nq := strings.Count(f, "(forall ") + strings.Count(f, "(exists ")
+		if nq > 1 || (nq == 1 && len(f) > 900) {
 			return
 		}
 		n.Facts = append(n.Facts, f)
@@ -203,11 +241,71 @@ func (p *Prog) relax(o *Obligation) *Obligation {
 	if o.vc != nil {
 		n.Decls = o.vc.decls
 	}
+	// maps: tie len(m) to the keys the query mentions (candidate models list exactly those keys)
+	{
+		text := strings.Join(n.Facts, "\n") + "\n" + n.Goal
+		seenM := map[string]bool{}
+		for _, m := range reMapCard.FindAllStringSubmatchIndex(text, -1) {
+			heap := text[m[2]:m[3]] // Mc$K$V@0
+			rest := text[m[1]:]
+			x := firstSExpr(strings.TrimLeft(rest, " "))
+			if x == "" || seenM[heap+"|"+x] || strings.Contains(x, "!q") || strings.Contains(x, "r!") {
+				continue
+			}
+			seenM[heap+"|"+x] = true
+			dom := "Md" + strings.TrimPrefix(heap, "Mc")
+			gb := &goBuilder{o: &n}
+			keys := gb.keyTerms(dom)
+			if len(keys) > 6 {
+				keys = keys[:6]
+			}
+			var terms, alts []string
+			for i, k := range keys {
+				conds := []string{fmt.Sprintf("(select (select %s %s) %s)", dom, x, k)}
+				for j := 0; j < i; j++ {
+					conds = append(conds, fmt.Sprintf("(not (and (= %s %s) (select (select %s %s) %s)))", keys[j], k, dom, x, keys[j]))
+				}
+				terms = append(terms, "(ite "+and(conds...)+" 1 0)")
+				alts = append(alts, "(= k!m "+k+")")
+			}
+			sum := "0"
+			if len(terms) == 1 {
+				sum = terms[0]
+			} else if len(terms) > 1 {
+				sum = "(+ " + strings.Join(terms, " ") + ")"
+			}
+			n.Facts = append(n.Facts, fmt.Sprintf("(= (select %s %s) %s)", heap, x, sum))
+			if ks := keySortOfDom(o, dom); ks != "" {
+				n.Facts = append(n.Facts, fmt.Sprintf("(forall ((k!m %s)) (=> (select (select %s %s) k!m) %s))", ks, dom, x, or(alts...)))
+			}
+		}
+	}
 	// keep model sizes within what the replay generator materialises
 	for _, m := range reSliceLen.FindAllStringSubmatch(strings.Join(n.Facts, " ")+" "+n.Goal, -1) {
 		key := m[0]
+		if tm := sliceTermAfter(strings.Join(n.Facts, " ")+" "+n.Goal, m[0]); tm != "" {
+			_ = tm
+		}
 		if strings.HasPrefix(m[2], "p$") {
 			n.Facts = append(n.Facts, fmt.Sprintf("(and (<= 0 %s) (<= %s 4))", key, key))
+		}
+	}
+	// slice values mentioned in the query: nil-ness and length are consistent; input-side slices stay small
+	{
+		text := strings.Join(n.Facts, "\n") + "\n" + n.Goal
+		seenS := map[string]bool{}
+		for _, loc := range reLenHead.FindAllStringSubmatchIndex(text, -1) {
+			sortName := text[loc[2]:loc[3]]
+			term := firstSExpr(strings.TrimLeft(text[loc[1]:], " "))
+			if term == "" || seenS[sortName+"|"+term] || strings.Contains(term, "!q") || strings.Contains(term, "wf!") || strings.Contains(term, "i!") || strings.Contains(term, "k!") || strings.Contains(term, "r!") {
+				continue
+			}
+			seenS[sortName+"|"+term] = true
+			ln := "(len_" + sortName + " " + term + ")"
+			n.Facts = append(n.Facts, fmt.Sprintf("(and (>= %s 0) (=> (not (nn_%s %s)) (= %s 0)))", ln, sortName, term, ln))
+			if strings.Contains(term, "@0") && !strings.Contains(term, "ret_") {
+				n.Facts = append(n.Facts, fmt.Sprintf("(<= %s 4)", ln))
+			}
 		}
 	}
 	// interface-typed inputs hold one of the known dynamic types
@@ -232,7 +330,11 @@ func (p *Prog) relax(o *Obligation) *Obligation {
 	for _, m := range reStrLen.FindAllStringSubmatch(text, -1) {
 		if !seen[m[1]] && balanced(m[1]) {
 			seen[m[1]] = true
-			n.Facts = append(n.Facts, fmt.Sprintf("(and (<= 0 (s.len %s)) (<= (s.len %s) 80))", m[1], m[1]))
+			bound := 80
+			if o.vc != nil && o.vc.unroll > 0 {
+				bound = 3
+			}
+			n.Facts = append(n.Facts, fmt.Sprintf("(and (<= 0 (s.len %s)) (<= (s.len %s) %d))", m[1], m[1], bound))
 		}
 	}
 	return &n
@@ -250,4 +352,70 @@ func splitSExprs(s string) []string {
 		s = strings.TrimSpace(s[len(e):])
 	}
 	return out
+}
+
+// searchCounterexample re-generates the obligations of the function with loops unrolled (k = 3) and no loop
+// annotations, and looks for a model of the same clause that replays on the real code.
+func (p *Prog) searchCounterexample(o *Obligation, rep *ReplayRecord, repo, dir string) (bool, string) {
+	fuzzNote := ""
+	if ok, note := p.fuzzReplay(o, rep, repo, dir, p.seed); ok {
+		return true, note
+	} else {
+		fuzzNote = note
+	}
+	ok, note := p.searchUnrolled(o, rep, repo, dir)
+	if ok {
+		return true, note
+	}
+	return false, strings.TrimSpace(fuzzNote + "; " + note)
+}
+
+func (p *Prog) searchUnrolled(o *Obligation, rep *ReplayRecord, repo, dir string) (bool, string) {
+	if o.vc == nil || o.vc.fi == nil || o.vc.fi.Decl == nil || (o.Kind != "post" && !strings.HasPrefix(o.Kind, "safe-")) {
+		return false, ""
+	}
+	hasLoop := len(numberLoops(o.vc.fi.Body())) > 0
+	if !hasLoop {
+		return false, ""
+	}
+	spec := *o.vc.spec
+	spec.Loops = map[int]*LoopSpec{}
+	spec.Asserts = nil
+	res := p.verifyFunc(o.vc.fi, &spec, true, 3)
+	if res.Err != nil {
+		return false, "unrolled VC generation failed: " + res.Err.Error()
+	}
+	tried := 0
+	var cands []*Obligation
+	for _, c := range res.Obls {
+		if c.Kind != o.Kind || c.Text != o.Text || c.Result != nil {
+			continue
+		}
+		if len(cands) >= 400 {
+			break
+		}
+		cands = append(cands, p.relax(c))
+	}
+	tried = len(cands)
+	p.u.SolveAllQuick(cands, dir, 4, 8)
+	replays := 0
+	for _, rel := range cands {
+		if os.Getenv("GOVC_DEBUG") != "" {
+			fmt.Fprintf(os.Stderr, "cex-search %s: %s\n", rel.Name, rel.Result.Status)
+		}
+		if rel.Result.Status != "sat" || replays >= 8 {
+			continue
+		}
+		replays++
+		sub := &ReplayRecord{}
+		ok, note := p.tryReplay(rel, sub, repo, dir)
+		if os.Getenv("GOVC_DEBUG") != "" {
+			fmt.Fprintf(os.Stderr, "   replay: %v %s | %v\n", ok, note, sub.Witness)
+		}
+		if ok {
+			rep.Witness, rep.ReplayCmd, rep.ReplayTest, rep.ReplayOut = sub.Witness, sub.ReplayCmd, sub.ReplayTest, sub.ReplayOut
+			return true, "counterexample found by bounded search (loops unrolled 3 times, candidate model validated by replay): " + note
+		}
+	}
+	return false, fmt.Sprintf("no replayable counterexample among %d unrolled paths (unwinding bound 3)", tried)
 }
